@@ -268,6 +268,17 @@ def _flush(ctx, drv, reqs, meta):
     del reqs[:], meta[:]
 
 
+def _parse_req(impl, po, text, kind, src):
+    """Model request for a parse: a str goes to the abstract tokenizer model on the text, a chunk list / file
+    object to the concrete chunk-cursor model TokC on exactly the chunks the implementation is given."""
+    req = dict(model_po(impl, po, text), op='parse', s=codes(text))
+    if kind == 'chunks':
+        req['chunks'] = [codes(c) for c in src]
+    elif kind == 'file':
+        req['chunks'] = [codes(c) for c in io.StringIO(text)]
+    return req
+
+
 def small_cases():
     """Deterministic part: every leaf with name and value of length <= 1 over SIGMA17 (names without CR/LF),
     every empty block and one-leaf block with a name of length <= 2 over the syntax-relevant symbols."""
@@ -324,7 +335,7 @@ def correspond(ctx, drivers):
         kind, src = G.sources(rng, text)[i % 3]
         got = impl.parse(src, po)
         ctx.count('parse-of-serialised:' + kind)
-        reqs.append(dict(model_po(impl, po, text), op='parse', s=codes(text)))
+        reqs.append(_parse_req(impl, po, text, kind, src))
         meta.append(('ser+parse', case, text, got))
         if text and (len(texts) < 4000 or rng.random() < 0.05):
             if len(texts) < 4000:
@@ -338,7 +349,7 @@ def correspond(ctx, drivers):
     for j, (d, po) in enumerate(gen_docs(ctx, impl, texts)):
         kind, src = G.sources(rng, d)[j % 3]
         got = impl.parse(src, po)
-        reqs.append(dict(model_po(impl, po, d), op='parse', s=codes(d)))
+        reqs.append(_parse_req(impl, po, d, kind, src))
         meta.append(('doc', {'doc': d, 'po': po, 'src': kind}, d, got))
         ctx.case({'doc': d, 'po': po}, nontrivial=_special(d), sample_every=4999)
         if got['k'] == 'err':
